@@ -236,3 +236,221 @@ Theorem C06_one_format_only :
        (forall (s : bytes) (vx : value), ~ xml_back o (VSharedString s) vx).
 Proof. exact one_format_only. Qed.
 
+(* ==== C06 AS ONE STATEMENT ABOUT THE TWO DECODED DOMS (Proofs/CrossFormatFile.v), composing BinRoundTrip, XmlRoundTrip and CrossFormat through
+   the source DOM.  forest_iso (any database, any XML behaviours): the binary-decoded and the XML-decoded DOM of the same (dom, roots) are
+   isomorphic under the relation induced by the two labellings: roots, root order, child order, tree shape, classes and names.
+   cross_format_doms_agree: for every written instance and every explicitly set property in scope, both decoded DOMs hold it under the same
+   name with nan_equiv values; Refs point at corresponding instances; SharedStrings are equal (closed for the plain pairing and simple column
+   types; cross_core_gen is generic in both per-format whole-file laws and is the plug-in point for the reflection theorems of XmlKnownProps /
+   BinKnownProps).  The "consequently" clause in both directions: what the first read produced satisfies the structural hypotheses of the second
+   write (binary_then_xml_partial, xml_then_binary_partial; the value-level hypotheses of the second leg are stated, not re-derived).
+   Outside the statement, proved by witnesses: a String of an unknown class reads back as BinaryString from binary and String from XML (C01's
+   documented normalisation; C06 quantifies over database classes); a property an instance lacked shows the column default after the binary read and
+   is absent after the XML read ("defaults that only the binary format fills in are ignored"). *)
+From RbxVerif Require Import XmlStructure XmlRoundTrip BinPostorder CrossFormatFile.
+From RbxVerif Require BinRoundTrip.
+
+Theorem C06_forest_iso :
+  forall (d : db) (ep : enc_params) (cmp : compression) (dom : cdom) (ts : list tree) 
+         (b : bytes) (p : dec_params) (st : ser_state) (e : xenv) (ebeh : ebehavior) 
+         (dbeh : dbehavior) (D : dout) (evs : list wevent) (revs : list revent),
+       BinRoundTrip.input_ok dom ts ->
+       BinRoundTrip.names_ok dom ->
+       encode_file d ep cmp dom (List.map root ts) = Ok b ->
+       add_instances d ep dom (List.map root ts) = Ok st ->
+       dp_lim p = None ->
+       BinRoundTrip.ser_names_ok st ->
+       BinRoundTrip.name_cols_ok st ->
+       (forall e0 : encoded,
+        encode_chunks d ep dom (List.map root ts) = Ok e0 ->
+        BinRoundTrip.frame_ok p cmp e0 /\
+        (exists st1 : BinFile.dstate, BinRoundTrip.run_chunks d p BinFile.dstate0 (removelast (en_chunks e0)) = Ok st1)) ->
+       hash_bytes e ->
+       readable e ebeh dom (List.map root ts) ->
+       dec_law e ebeh dbeh D dom (List.map root ts) ->
+       xml_encode e ebeh dom (List.map root ts) = Ok evs ->
+       channel evs = Ok revs ->
+       exists outB outX : cdom,
+         decode_file d p b = Ok outB /\
+         xml_decode e dbeh revs = Ok outX /\
+         dom_iso (lab_iso (BinRoundTrip.lbl st) (label (flat_map refs ts)) (flat_map refs ts)) outB outX.
+Proof. exact forest_iso. Qed.
+
+Theorem C06_cross_core_gen :
+  forall (sc : value -> bool) (LB : N -> N) (dom : cdom) (ts : list tree) (fresh : value)
+         (cn : inst -> bytes -> bytes) (backB backX : value -> value -> Prop) (outB outX : cdom),
+       (forall v vb vx : value,
+        sc v = true ->
+        backB v vb ->
+        backX v vx -> val_agree (lab_iso LB (label (flat_map refs ts)) (flat_map refs ts)) v vb vx) ->
+       BinRoundTrip.input_ok dom ts ->
+       BinRoundTrip.same_forest dom ts LB outB ->
+       (forall r : N,
+        In r (flat_map refs ts) ->
+        exists i' : inst,
+          find_inst outB (LB r) = Some i' /\
+          i_ref i' = LB r /\
+          i_class i' = BinStructure.class_of dom r /\ i_name i' = i_name (BinRoundTrip.src dom r)) ->
+       forest_rel dom (List.map root ts) outX ->
+       side_law sc LB (flat_map refs ts) cn backB
+         (fun (k : bytes) (v' : value) => k = UNIQUE_ID /\ v' = fresh) dom outB ->
+       side_law sc (label (flat_map refs ts)) (flat_map refs ts) cn backX
+         (fun (_ : bytes) (_ : value) => False) dom outX ->
+       doms_agree sc LB (label (flat_map refs ts)) (flat_map refs ts) fresh cn dom outB outX.
+Proof. exact cross_core_gen. Qed.
+
+Theorem C06_cross_format_doms_agree_generic :
+  forall (sc : value -> bool) (d : db) (ep : enc_params) (cmp : compression) 
+         (dom : cdom) (ts : list tree) (b : bytes) (p : dec_params) (st : ser_state)
+         (R : BinRoundTrip.column -> BinRoundTrip.col_read) (e : xenv) (ebeh : ebehavior) 
+         (dbeh : dbehavior) (evs : list wevent) (revs : list revent),
+       (forall v : value, sc v = true -> dom_scope v = true) ->
+       BinRoundTrip.input_ok dom ts ->
+       props_ok dom ts ->
+       BinRoundTrip.names_ok dom ->
+       encode_file d ep cmp dom (List.map root ts) = Ok b ->
+       add_instances d ep dom (List.map root ts) = Ok st ->
+       dp_lim p = None ->
+       (forall e0 : encoded,
+        encode_chunks d ep dom (List.map root ts) = Ok e0 -> BinRoundTrip.frame_ok p cmp e0) ->
+       BinRoundTrip.sstr_ok st ->
+       BinRoundTrip.ser_names_ok st ->
+       BinRoundTrip.name_cols_ok st ->
+       (forall x : BinRoundTrip.column,
+        In x (BinRoundTrip.cols (ss_types st)) ->
+        fst (snd x) <> NAME -> BinRoundTrip.col_law d ep p dom st (BinRoundTrip.stI_of st) x (R x)) ->
+       bin_law sc p dom st R (fun (_ : inst) (k : bytes) => k) ->
+       plain_mode e ebeh dbeh dom (List.map root ts) ->
+       hash_ok e ->
+       readable_dom e dom (List.map root ts) ->
+       xml_oracle_ok (xe_o e) ->
+       xml_encode e ebeh dom (List.map root ts) = Ok evs ->
+       channel evs = Ok revs ->
+       exists outB outX : cdom,
+         decode_file d p b = Ok outB /\
+         xml_decode e dbeh revs = Ok outX /\
+         doms_agree sc (BinRoundTrip.lbl st) (label (flat_map refs ts)) (flat_map refs ts) 
+           (dp_fresh_uid p) (fun (_ : inst) (k : bytes) => k) dom outB outX.
+Proof. exact cross_format_doms_agree_generic. Qed.
+
+Theorem C06_cross_format_doms_agree :
+  forall (d : db) (ep : enc_params) (cmp : compression) (dom : cdom) (ts : list tree) 
+         (b : bytes) (p : dec_params) (st : ser_state) (e : xenv) (ebeh : ebehavior) 
+         (dbeh : dbehavior) (evs : list wevent) (revs : list revent),
+       BinRoundTrip.input_ok dom ts ->
+       props_ok dom ts ->
+       BinRoundTrip.names_ok dom ->
+       BinRoundTrip.unknown_props d dom ->
+       ep_order ep [] = [] ->
+       encode_file d ep cmp dom (List.map root ts) = Ok b ->
+       add_instances d ep dom (List.map root ts) = Ok st ->
+       dp_lim p = None ->
+       (forall e0 : encoded,
+        encode_chunks d ep dom (List.map root ts) = Ok e0 -> BinRoundTrip.frame_ok p cmp e0) ->
+       BinRoundTrip.sstr_ok st ->
+       (forall x : BinRoundTrip.column,
+        In x (BinRoundTrip.cols (ss_types st)) ->
+        fst (snd x) <> NAME -> simple_col2 st (pi_type (snd (snd x))) (BinRoundTrip.col_values ep dom x)) ->
+       plain_mode e ebeh dbeh dom (List.map root ts) ->
+       hash_ok e ->
+       readable_dom e dom (List.map root ts) ->
+       xml_oracle_ok (xe_o e) ->
+       xml_encode e ebeh dom (List.map root ts) = Ok evs ->
+       channel evs = Ok revs ->
+       exists outB outX : cdom,
+         decode_file d p b = Ok outB /\
+         xml_decode e dbeh revs = Ok outX /\
+         doms_agree unknown_scope (BinRoundTrip.lbl st) (label (flat_map refs ts)) 
+           (flat_map refs ts) (dp_fresh_uid p) (fun (_ : inst) (k : bytes) => k) dom outB outX.
+Proof. exact cross_format_doms_agree. Qed.
+
+Theorem C06_binary_then_xml_partial :
+  forall (d : db) (ep : enc_params) (cmp : compression) (dom : cdom) (ts : list tree) 
+         (b : bytes) (p : dec_params) (st : ser_state) (R : BinRoundTrip.column -> BinRoundTrip.col_read)
+         (e : xenv) (ebeh : ebehavior) (dbeh : dbehavior) (evs : list wevent) (revs : list revent),
+       BinRoundTrip.input_ok dom ts ->
+       BinRoundTrip.names_ok dom ->
+       encode_file d ep cmp dom (List.map root ts) = Ok b ->
+       add_instances d ep dom (List.map root ts) = Ok st ->
+       dp_lim p = None ->
+       (forall e0 : encoded,
+        encode_chunks d ep dom (List.map root ts) = Ok e0 -> BinRoundTrip.frame_ok p cmp e0) ->
+       BinRoundTrip.sstr_ok st ->
+       BinRoundTrip.ser_names_ok st ->
+       BinRoundTrip.name_cols_ok st ->
+       (forall x : BinRoundTrip.column,
+        In x (BinRoundTrip.cols (ss_types st)) ->
+        fst (snd x) <> NAME -> BinRoundTrip.col_law d ep p dom st (BinRoundTrip.stI_of st) x (R x)) ->
+       reads_no_name st R ->
+       exists outB : cdom,
+         decode_file d p b = Ok outB /\
+         (let roots' := children_of outB 0 in
+          input_ok outB roots' /\
+          written outB roots' = List.map (BinRoundTrip.lbl st) (flat_map refs ts) /\
+          Permutation.Permutation (written outB roots') (List.map i_ref outB) /\
+          (plain_mode e ebeh dbeh outB roots' ->
+           hash_ok e ->
+           readable_dom e outB roots' ->
+           xml_encode e ebeh outB roots' = Ok evs ->
+           channel evs = Ok revs ->
+           exists outX : cdom, xml_decode e dbeh revs = Ok outX /\ same_forest e outB roots' outX)).
+Proof. exact binary_then_xml_partial. Qed.
+
+Theorem C06_xml_then_binary_partial :
+  forall (e : xenv) (ebeh : ebehavior) (dbeh : dbehavior) (dom : cdom) (ts : list tree)
+         (evs : list wevent) (revs : list revent),
+       BinRoundTrip.input_ok dom ts ->
+       props_ok dom ts ->
+       BinRoundTrip.names_ok dom ->
+       plain_mode e ebeh dbeh dom (List.map root ts) ->
+       hash_ok e ->
+       readable_dom e dom (List.map root ts) ->
+       xml_encode e ebeh dom (List.map root ts) = Ok evs ->
+       channel evs = Ok revs ->
+       exists outX : cdom,
+         xml_decode e dbeh revs = Ok outX /\
+         (let ts' := List.map (tmap (label (flat_map refs ts))) ts in
+          BinRoundTrip.input_ok outX ts' /\
+          BinRoundTrip.names_ok outX /\
+          props_ok outX ts' /\
+          List.map root ts' = children_of outX 0 /\ flat_map refs ts' = List.map i_ref outX).
+Proof. exact xml_then_binary_partial. Qed.
+
+Theorem C06_unknown_string_differs :
+  dom_scope (VString (B "hi")) = true /\
+       (exists b : bytes,
+          encode_file BinFileFacts.db0 BinFileFacts.ep0 None str_dom [1] = Ok b /\
+          decode_file BinFileFacts.db0 (BinFileFacts.dp0 None) b =
+          Ok
+            [{|
+               i_ref := 1;
+               i_parent := 0;
+               i_class := B "Thing";
+               i_name := B "c";
+               i_props := [(B "S", VBinaryString (B "hi"))]
+             |}]) /\
+       thru Example.ex_e EWriteUnknown DReadUnknown str_dom [1] =
+       Ok
+         [{|
+            i_ref := 1;
+            i_parent := 0;
+            i_class := B "Thing";
+            i_name := B "c";
+            i_props := [(B "S", VString (B "hi"))]
+          |}] /\ ~ nan_equiv (VBinaryString (B "hi")) (VString (B "hi")).
+Proof. exact unknown_string_differs. Qed.
+
+Theorem C06_unset_property_differs :
+  bfind (B "Q") (i_props (BinRoundTrip.src BinFileFacts.sample_dom 2)) = None /\
+       (exists (b : bytes) (outB : cdom),
+          encode_file BinFileFacts.db0 BinFileFacts.ep0 None BinFileFacts.sample_dom [1] = Ok b /\
+          decode_file BinFileFacts.db0 (BinFileFacts.dp0 None) b = Ok outB /\
+          option_map (fun i : inst => bfind (B "Q") (i_props i))
+            (find_inst outB (BinRoundTrip.lbl BinRoundTrip.SampleRoundTrip.sample_st 2)) =
+          Some (Some (VBool false))) /\
+       (exists outX : cdom,
+          thru Example.ex_e EWriteUnknown DReadUnknown BinFileFacts.sample_dom [1] = Ok outX /\
+          option_map (fun i : inst => bfind (B "Q") (i_props i)) (find_inst outX (label [1; 2; 3] 2)) =
+          Some None).
+Proof. exact unset_property_differs. Qed.
+
